@@ -4,6 +4,10 @@ total (fuel never runs out), panic-free, output sorted / disjoint / well-formed,
 -/
 import MstVerif.Proofs.Defs
 import Mathlib.Order.Defs.LinearOrder
+import Mathlib.Order.Basic
+import Mathlib.Tactic.Order
+
+set_option linter.unusedSectionVars false
 
 namespace Mst
 variable {K D : Type} [LinearOrder K] [DecidableEq D]
@@ -22,12 +26,336 @@ def DRValid (l : List (DR K)) : Prop := ∀ r ∈ l, r.1 ≤ r.2
 /-- `x` occurs as the start or end of an interval of `l`. -/
 def IsBound (x : K) (l : List (DR K)) : Prop := ∃ r ∈ l, x = r.1 ∨ x = r.2
 
+
+/-! ### Helper lemmas on interval lists -/
+
+/-- Every interval of `m` has both end points among the bounds of `l`. -/
+def BoundsIn (m l : List (DR K)) : Prop := ∀ r ∈ m, IsBound r.1 l ∧ IsBound r.2 l
+
+omit [DecidableEq D] in
+theorem covered_cons (x : K) (a : DR K) (l : List (DR K)) :
+    Covered x (a :: l) ↔ DR.mem x a ∨ Covered x l := by
+  simp [Covered]
+
+omit [DecidableEq D] in
+theorem covered_nil (x : K) : ¬ Covered x ([] : List (DR K)) := by
+  simp [Covered]
+
+omit [DecidableEq D] in
+theorem isBound_cons (x : K) (a : DR K) (l : List (DR K)) :
+    IsBound x (a :: l) ↔ (x = a.1 ∨ x = a.2) ∨ IsBound x l := by
+  simp [IsBound]
+
+omit [DecidableEq D] in
+theorem isBound_mono {x : K} {l l' : List (DR K)} (h : ∀ r ∈ l, r ∈ l') (hx : IsBound x l) :
+    IsBound x l' := by
+  obtain ⟨r, hr, hx⟩ := hx
+  exact ⟨r, h r hr, hx⟩
+
+omit [DecidableEq D] in
+theorem isBound_trans {x : K} {m l : List (DR K)} (hx : IsBound x m) (h : BoundsIn m l) :
+    IsBound x l := by
+  obtain ⟨r, hr, hx⟩ := hx
+  rcases hx with rfl | rfl
+  · exact (h r hr).1
+  · exact (h r hr).2
+
+omit [DecidableEq D] in
+theorem boundsIn_trans {a b c : List (DR K)} (h1 : BoundsIn a b) (h2 : BoundsIn b c) :
+    BoundsIn a c :=
+  fun r hr => ⟨isBound_trans (h1 r hr).1 h2, isBound_trans (h1 r hr).2 h2⟩
+
+omit [DecidableEq D] in
+theorem boundsIn_of_subset {a b : List (DR K)} (h : ∀ r ∈ a, r ∈ b) : BoundsIn a b :=
+  fun r hr => ⟨⟨r, h r hr, Or.inl rfl⟩, ⟨r, h r hr, Or.inr rfl⟩⟩
+
+omit [DecidableEq D] in
+theorem boundsIn_append {a b c : List (DR K)} (h1 : BoundsIn a c) (h2 : BoundsIn b c) :
+    BoundsIn (a ++ b) c := by
+  intro r hr
+  rcases List.mem_append.1 hr with h | h
+  · exact h1 r h
+  · exact h2 r h
+
+/-- The general `mergeGo` lemma. -/
+theorem mergeGo_spec (rs : List (DR K)) : ∀ (last : DR K), last.1 ≤ last.2 → DRValid rs →
+    (∀ r ∈ rs, last.1 ≤ r.1) → rs.Pairwise (fun a b => a.1 ≤ b.1) →
+    ∃ out, mergeGo last rs = .ok out ∧ DRChain out ∧ DRValid out ∧ (∀ r ∈ out, last.1 ≤ r.1) ∧
+      (∀ x, Covered x out ↔ Covered x (last :: rs)) ∧ BoundsIn out (last :: rs) := by
+  induction rs with
+  | nil =>
+    intro last hl _ _ _
+    refine ⟨[last], rfl, ?_, ?_, ?_, ?_, ?_⟩
+    · simp [DRChain]
+    · simpa [DRValid] using hl
+    · simp
+    · simp
+    · exact boundsIn_of_subset (fun r h => h)
+  | cons r rs ih =>
+    intro last hl hv hle hs
+    have hr1 : last.1 ≤ r.1 := hle r (by simp)
+    have hrv : r.1 ≤ r.2 := hv r (by simp)
+    have hv' : DRValid rs := fun a ha => hv a (by simp [ha])
+    have hle' : ∀ a ∈ rs, last.1 ≤ a.1 := fun a ha => hle a (by simp [ha])
+    rw [List.pairwise_cons] at hs
+    unfold mergeGo
+    simp only [hr1, decide_true, Bool.not_true, Bool.false_eq_true, if_false]
+    by_cases h1 : r.2 ≤ last.2
+    · rw [if_pos h1]
+      obtain ⟨out, he, hc, hov, hos, hcov, hb⟩ := ih last hl hv' hle' hs.2
+      refine ⟨out, he, hc, hov, hos, ?_, ?_⟩
+      · intro x
+        rw [hcov, covered_cons, covered_cons, covered_cons]
+        constructor
+        · rintro (h | h)
+          · exact Or.inl h
+          · exact Or.inr (Or.inr h)
+        · rintro (h | h | h)
+          · exact Or.inl h
+          · exact Or.inl ⟨le_trans hr1 h.1, le_trans h.2 h1⟩
+          · exact Or.inr h
+      · exact boundsIn_trans hb (boundsIn_of_subset (by intro a ha; simp at ha ⊢; rcases ha with h | h <;> simp [h]))
+    · rw [if_neg h1]
+      by_cases h2 : r.1 ≤ last.2
+      · rw [if_pos h2]
+        obtain ⟨out, he, hc, hov, hos, hcov, hb⟩ :=
+          ih (last.1, r.2) (le_trans hr1 hrv) hv' hle' hs.2
+        refine ⟨out, he, hc, hov, hos, ?_, ?_⟩
+        · intro x
+          rw [hcov, covered_cons, covered_cons, covered_cons]
+          have h1' : last.2 < r.2 := lt_of_not_ge h1
+          constructor
+          · rintro (h | h)
+            · by_cases hx : x ≤ last.2
+              · exact Or.inl ⟨h.1, hx⟩
+              · exact Or.inr (Or.inl ⟨le_trans h2 (le_of_lt (lt_of_not_ge hx)), h.2⟩)
+            · exact Or.inr (Or.inr h)
+          · rintro (h | h | h)
+            · exact Or.inl ⟨h.1, le_trans h.2 (le_of_lt h1')⟩
+            · exact Or.inl ⟨le_trans hr1 h.1, h.2⟩
+            · exact Or.inr h
+        · refine boundsIn_trans hb ?_
+          intro a ha
+          rcases List.mem_cons.1 ha with rfl | ha
+          · exact ⟨⟨last, by simp, Or.inl rfl⟩, ⟨r, by simp, Or.inr rfl⟩⟩
+          · exact boundsIn_of_subset (b := last :: r :: rs) (a := rs)
+              (by intro c hc; simp [hc]) a ha
+      · rw [if_neg h2]
+        obtain ⟨out, he, hc, hov, hos, hcov, hb⟩ := ih r hrv hv' hs.1 hs.2
+        have h2' : last.2 < r.1 := lt_of_not_ge h2
+        rw [he]
+        refine ⟨last :: out, rfl, ?_, ?_, ?_, ?_, ?_⟩
+        · exact List.pairwise_cons.2 ⟨fun a ha => lt_of_lt_of_le h2' (hos a ha), hc⟩
+        · intro a ha
+          rcases List.mem_cons.1 ha with rfl | ha
+          · exact hl
+          · exact hov a ha
+        · intro a ha
+          rcases List.mem_cons.1 ha with rfl | ha
+          · exact le_refl _
+          · exact le_trans hr1 (hos a ha)
+        · intro x
+          rw [covered_cons, hcov, covered_cons (a := last)]
+        · refine boundsIn_append (a := [last]) ?_ ?_
+          · exact boundsIn_of_subset (by intro c hc; simp at hc; simp [hc])
+          · exact boundsIn_trans hb (boundsIn_of_subset (by intro c hc; simp [hc]))
+
+omit [DecidableEq D] in
+theorem overlaps_false_of_lt {a b : DR K} (h : a.2 < b.1) : DR.overlaps a b = false := by
+  simp only [DR.overlaps, Bool.and_eq_false_iff, decide_eq_false_iff_not]
+  exact Or.inr (not_le_of_gt h)
+
+omit [DecidableEq D] in
+theorem checkWindowsIntoVec_ok (m : List (DR K)) (hc : DRChain m) (hv : DRValid m) :
+    checkWindowsIntoVec m = .ok () := by
+  induction m with
+  | nil => rfl
+  | cons a m ih =>
+    cases m with
+    | nil => rfl
+    | cons b rest =>
+      have hab : a.2 < b.1 := (List.pairwise_cons.1 hc).1 b (by simp)
+      have ha : a.1 ≤ a.2 := hv a (by simp)
+      have hb : b.1 ≤ b.2 := hv b (by simp)
+      unfold checkWindowsIntoVec
+      simp only [overlaps_false_of_lt hab, ha, hb, decide_true, Bool.not_true,
+        Bool.false_eq_true, if_false]
+      exact ih (List.pairwise_cons.1 hc).2 (fun r hr => hv r (by simp [hr]))
+
+omit [DecidableEq D] in
+theorem checkWindowsReduce_ok (m : List (DR K)) (hc : DRChain m) :
+    checkWindowsReduce m = .ok () := by
+  induction m with
+  | nil => rfl
+  | cons a m ih =>
+    cases m with
+    | nil => rfl
+    | cons b rest =>
+      have hab : a.2 < b.1 := (List.pairwise_cons.1 hc).1 b (by simp)
+      unfold checkWindowsReduce
+      simp only [overlaps_false_of_lt hab, Bool.false_eq_true, if_false]
+      exact ih (List.pairwise_cons.1 hc).2
+
+omit [DecidableEq D] in
+/-- `mergeOverlapping` on a valid list sorted by start. -/
+theorem mergeOverlapping_spec (l : List (DR K)) (hv : DRValid l)
+    (hs : l.Pairwise (fun a b => a.1 ≤ b.1)) :
+    ∃ out, mergeOverlapping l = .ok out ∧ DRChain out ∧ DRValid out ∧
+      (∀ x, Covered x out ↔ Covered x l) ∧ BoundsIn out l := by
+  cases l with
+  | nil =>
+    exact ⟨[], rfl, by simp [DRChain], by simp [DRValid], fun x => Iff.rfl,
+      boundsIn_of_subset (fun r h => h)⟩
+  | cons a rs =>
+    rw [List.pairwise_cons] at hs
+    obtain ⟨out, he, hc, hov, -, hcov, hb⟩ :=
+      mergeGo_spec rs a (hv a (by simp)) (fun r hr => hv r (by simp [hr])) hs.1 hs.2
+    exact ⟨out, he, hc, hov, hcov, hb⟩
+
 /-- `RangeList::into_vec` on valid intervals: no assertion fires; the result is a strict chain of
 valid intervals covering exactly the same keys, with bounds taken from the input. -/
 theorem intoVec_spec (l : List (DR K)) (hv : DRValid l) :
     ∃ m, intoVec l = .ok m ∧ DRChain m ∧ DRValid m ∧
       (∀ x, Covered x m ↔ Covered x l) ∧ (∀ r ∈ m, IsBound r.1 l ∧ IsBound r.2 l) := by
-  sorry
+  have hperm := List.mergeSort_perm l (fun a b => decide (a.1 ≤ b.1))
+  have hsorted : (l.mergeSort (fun a b => decide (a.1 ≤ b.1))).Pairwise (fun a b => a.1 ≤ b.1) := by
+    have := List.pairwise_mergeSort (le := fun (a b : DR K) => decide (a.1 ≤ b.1))
+      (fun a b c hab hbc => by
+        simp only [decide_eq_true_eq] at hab hbc ⊢
+        exact le_trans hab hbc)
+      (fun a b => by
+        simp only [Bool.or_eq_true, decide_eq_true_eq]
+        exact le_total _ _) l
+    exact this.imp (fun h => by simpa using h)
+  have hmem : ∀ r, r ∈ l.mergeSort (fun a b => decide (a.1 ≤ b.1)) ↔ r ∈ l := fun r => hperm.mem_iff
+  obtain ⟨m, he, hc, hmv, hcov, hb⟩ := mergeOverlapping_spec _
+    (fun r hr => hv r ((hmem r).1 hr)) hsorted
+  refine ⟨m, ?_, hc, hmv, ?_, ?_⟩
+  · unfold intoVec
+    rw [he]
+    simp only [checkWindowsIntoVec_ok m hc hmv]
+  · intro x
+    rw [hcov]
+    simp only [Covered, hmem]
+  · exact boundsIn_trans hb (boundsIn_of_subset (fun r hr => (hmem r).1 hr))
+
+/-! ### `punch` and the fold of `reduce_sync_range` -/
+
+/-- Weakly ascending: consecutive intervals may share an end point. -/
+def WChain (l : List (DR K)) : Prop := l.Pairwise (fun a b => a.2 ≤ b.1)
+
+theorem overlaps_iff (a b : DR K) : DR.overlaps a b = true ↔ a.1 ≤ b.2 ∧ b.1 ≤ a.2 := by
+  simp [DR.overlaps]
+
+/-- Membership in `punch g b`, spelled out. -/
+theorem mem_punch (g b p : DR K) : p ∈ punch g b ↔
+    (¬ (g.1 ≤ b.2 ∧ b.1 ≤ g.2) ∧ p = b) ∨
+    ((g.1 ≤ b.2 ∧ b.1 ≤ g.2) ∧ ((b.1 < g.1 ∧ p = (b.1, g.1)) ∨ (g.2 < b.2 ∧ p = (g.2, b.2)))) := by
+  unfold punch
+  by_cases ho : g.1 ≤ b.2 ∧ b.1 ≤ g.2
+  · have : DR.overlaps g b = true := (overlaps_iff g b).2 ho
+    simp only [this, Bool.not_true, Bool.false_eq_true, if_false, List.mem_append]
+    by_cases h1 : b.1 < g.1 <;> by_cases h2 : g.2 < b.2 <;> simp [h1, h2, ho]
+  · have : DR.overlaps g b = false := by
+      rw [← Bool.not_eq_true, overlaps_iff]; exact ho
+    simp [this, ho]
+
+theorem punch_inside (g b : DR K) (_hg : g.1 ≤ g.2) (hb : b.1 ≤ b.2) :
+    ∀ p ∈ punch g b, p.1 ≤ p.2 ∧ b.1 ≤ p.1 ∧ p.2 ≤ b.2 := by
+  intro p hp
+  rw [mem_punch] at hp
+  rcases hp with ⟨_, rfl⟩ | ⟨ho, ⟨h, rfl⟩ | ⟨h, rfl⟩⟩
+  · exact ⟨hb, le_refl _, le_refl _⟩
+  · exact ⟨le_of_lt h, le_refl _, ho.1⟩
+  · exact ⟨le_of_lt h, ho.2, le_refl _⟩
+
+theorem punch_wchain (g b : DR K) (hg : g.1 ≤ g.2) : WChain (punch g b) := by
+  unfold punch WChain
+  by_cases ho : DR.overlaps g b = true
+  · simp only [ho, Bool.not_true, Bool.false_eq_true, if_false]
+    by_cases h1 : b.1 < g.1 <;> by_cases h2 : g.2 < b.2 <;> simp [h1, h2, hg]
+  · simp [ho]
+
+theorem punch_keeps (g b : DR K) (x : K) (hx : DR.mem x b) (hng : ¬ DR.mem x g) :
+    ∃ p ∈ punch g b, DR.mem x p := by
+  by_cases ho : g.1 ≤ b.2 ∧ b.1 ≤ g.2
+  · by_cases h1 : g.1 ≤ x
+    · have h2 : g.2 < x := lt_of_not_ge (fun h => hng ⟨h1, h⟩)
+      refine ⟨(g.2, b.2), (mem_punch g b _).2 (Or.inr ⟨ho, Or.inr ⟨lt_of_lt_of_le h2 hx.2, rfl⟩⟩), ?_⟩
+      exact ⟨le_of_lt h2, hx.2⟩
+    · have h1' : x < g.1 := lt_of_not_ge h1
+      refine ⟨(b.1, g.1), (mem_punch g b _).2 (Or.inr ⟨ho, Or.inl ⟨lt_of_le_of_lt hx.1 h1', rfl⟩⟩), ?_⟩
+      exact ⟨hx.1, le_of_lt h1'⟩
+  · exact ⟨b, (mem_punch g b _).2 (Or.inl ⟨ho, rfl⟩), hx⟩
+
+theorem punch_bounds (g b : DR K) : BoundsIn (punch g b) [b, g] := by
+  intro p hp
+  rw [mem_punch] at hp
+  rcases hp with ⟨_, rfl⟩ | ⟨ho, ⟨h, rfl⟩ | ⟨h, rfl⟩⟩
+  · exact ⟨⟨p, by simp, Or.inl rfl⟩, ⟨p, by simp, Or.inr rfl⟩⟩
+  · exact ⟨⟨b, by simp, Or.inl rfl⟩, ⟨g, by simp, Or.inl rfl⟩⟩
+  · exact ⟨⟨g, by simp, Or.inr rfl⟩, ⟨b, by simp, Or.inr rfl⟩⟩
+
+/-- One step of the fold. -/
+theorem flatMap_punch_spec (g : DR K) (hg : g.1 ≤ g.2) (acc : List (DR K))
+    (hw : WChain acc) (hv : DRValid acc) :
+    WChain (acc.flatMap (punch g)) ∧ DRValid (acc.flatMap (punch g)) ∧
+    (∀ x, Covered x (acc.flatMap (punch g)) → Covered x acc) ∧
+    (∀ x, Covered x acc → ¬ DR.mem x g → Covered x (acc.flatMap (punch g))) ∧
+    BoundsIn (acc.flatMap (punch g)) (acc ++ [g]) := by
+  refine ⟨?_, ?_, ?_, ?_, ?_⟩
+  · unfold WChain
+    rw [List.pairwise_flatMap]
+    refine ⟨fun a _ => punch_wchain g a hg, hw.imp_of_mem ?_⟩
+    intro a b ha hb hab p hp q hq
+    exact le_trans (punch_inside g a hg (hv a ha) p hp).2.2
+      (le_trans hab (punch_inside g b hg (hv b hb) q hq).2.1)
+  · intro p hp
+    obtain ⟨a, ha, hpa⟩ := List.mem_flatMap.1 hp
+    exact (punch_inside g a hg (hv a ha) p hpa).1
+  · rintro x ⟨p, hp, hx⟩
+    obtain ⟨a, ha, hpa⟩ := List.mem_flatMap.1 hp
+    have := punch_inside g a hg (hv a ha) p hpa
+    exact ⟨a, ha, le_trans this.2.1 hx.1, le_trans hx.2 this.2.2⟩
+  · rintro x ⟨a, ha, hx⟩ hng
+    obtain ⟨p, hp, hxp⟩ := punch_keeps g a x hx hng
+    exact ⟨p, List.mem_flatMap.2 ⟨a, ha, hp⟩, hxp⟩
+  · intro p hp
+    obtain ⟨a, ha, hpa⟩ := List.mem_flatMap.1 hp
+    have hsub : ∀ r ∈ [a, g], r ∈ acc ++ [g] := by
+      intro r hr
+      simp only [List.mem_cons, List.not_mem_nil, or_false] at hr
+      rcases hr with rfl | rfl <;> simp [ha]
+    exact boundsIn_trans (punch_bounds g a) (boundsIn_of_subset hsub) p hpa
+
+/-- The whole fold. -/
+theorem foldl_punch_spec (good : List (DR K)) : ∀ (acc : List (DR K)), DRValid good →
+    WChain acc → DRValid acc →
+    WChain (good.foldl (fun acc g => acc.flatMap (punch g)) acc) ∧
+    DRValid (good.foldl (fun acc g => acc.flatMap (punch g)) acc) ∧
+    (∀ x, Covered x (good.foldl (fun acc g => acc.flatMap (punch g)) acc) → Covered x acc) ∧
+    (∀ x, Covered x acc → ¬ Covered x good →
+      Covered x (good.foldl (fun acc g => acc.flatMap (punch g)) acc)) ∧
+    BoundsIn (good.foldl (fun acc g => acc.flatMap (punch g)) acc) (acc ++ good) := by
+  induction good with
+  | nil =>
+    intro acc _ hw hv
+    exact ⟨hw, hv, fun _ h => h, fun _ h _ => h, boundsIn_of_subset (by simp)⟩
+  | cons g good ih =>
+    intro acc hgv hw hv
+    have hg : g.1 ≤ g.2 := hgv g (by simp)
+    obtain ⟨sw, sv, sc1, sc2, sb⟩ := flatMap_punch_spec g hg acc hw hv
+    obtain ⟨iw, iv, ic1, ic2, ib⟩ :=
+      ih (acc.flatMap (punch g)) (fun r hr => hgv r (by simp [hr])) sw sv
+    rw [List.foldl_cons]
+    refine ⟨iw, iv, fun x h => sc1 x (ic1 x h), ?_, ?_⟩
+    · intro x hx hng
+      rw [covered_cons] at hng
+      exact ic2 x (sc2 x hx (fun h => hng (Or.inl h))) (fun h => hng (Or.inr h))
+    · refine boundsIn_trans ib (boundsIn_append ?_ ?_)
+      · exact boundsIn_trans sb (boundsIn_of_subset (by
+          intro r hr; simp at hr ⊢; rcases hr with h | h <;> simp [h]))
+      · exact boundsIn_of_subset (by intro r hr; simp [hr])
 
 /-- `reduce_sync_range` on two strict chains of valid intervals: no assertion fires; the result is
 a strict chain of valid intervals, inside the bad intervals, covering every key that is in a bad
@@ -38,12 +366,294 @@ theorem reduceSyncRange_spec (bad good : List (DR K))
       (∀ x, Covered x out → Covered x bad) ∧
       (∀ x, Covered x bad → ¬ Covered x good → Covered x out) ∧
       (∀ r ∈ out, IsBound r.1 (bad ++ good) ∧ IsBound r.2 (bad ++ good)) := by
-  sorry
+  have hw : WChain bad := hb.imp (fun h => le_of_lt h)
+  obtain ⟨fw, fv, fc1, fc2, fb⟩ := foldl_punch_spec good bad hgv hw hbv
+  have hs : (good.foldl (fun acc g => acc.flatMap (punch g)) bad).Pairwise
+      (fun a b => a.1 ≤ b.1) :=
+    fw.imp_of_mem (fun {a b} ha _ hab => le_trans (fv a ha) hab)
+  obtain ⟨m, he, hc, hmv, hcov, hmb⟩ := mergeOverlapping_spec _ fv hs
+  refine ⟨m, ?_, hc, hmv, ?_, ?_, boundsIn_trans hmb fb⟩
+  · unfold reduceSyncRange
+    simp only [he, checkWindowsReduce_ok m hc]
+  · intro x hx
+    exact fc1 x ((hcov x).1 hx)
+  · intro x hx hng
+    exact (hcov x).2 (fc2 x hx hng)
 
 /-- All interval bounds of a page-range list. -/
 def prBounds (l : List (PR K D)) : List (DR K) := l.map fun r => (r.start, r.end_)
 
 def PRValid (l : List (PR K D)) : Prop := ∀ r ∈ l, r.start ≤ r.end_
+
+/-! ### The walk -/
+
+/-- A page range that is valid and whose bounds satisfy `P`. -/
+def PRG (P : K → Prop) (r : PR K D) : Prop := r.start ≤ r.end_ ∧ P r.start ∧ P r.end_
+
+/-- Every recorded interval is valid with bounds satisfying `P`. -/
+def BOK (P : K → Prop) (b : Builder K) : Prop :=
+  ∀ r ∈ b.bad ++ b.good, r.1 ≤ r.2 ∧ P r.1 ∧ P r.2
+
+theorem advWithin_cases (parent : PR K D) (l : List (PR K D)) :
+    advWithin parent l = (none, l) ∨
+    ∃ x r, l = x :: r ∧ parent.supersetOf x = true ∧ advWithin parent l = (some x, r) := by
+  cases l with
+  | nil => exact Or.inl rfl
+  | cons x r =>
+    by_cases h : parent.supersetOf x = true
+    · exact Or.inr ⟨x, r, rfl, h, by simp [advWithin, h]⟩
+    · exact Or.inl (by simp [advWithin, h])
+
+theorem shrinkLocal_mem (p : PR K D) (loc : List (PR K D)) : ∀ (l0 : PR K D),
+    ∀ r ∈ (shrinkLocal p l0 loc).2, r ∈ loc := by
+  induction loc with
+  | nil => intro l0 r hr; simp [shrinkLocal] at hr
+  | cons v rest ih =>
+    intro l0 r hr
+    unfold shrinkLocal at hr
+    by_cases h : v.supersetOf p = true
+    · rw [if_pos h] at hr
+      exact List.mem_cons_of_mem _ (ih v r hr)
+    · rw [if_neg h] at hr
+      exact hr
+
+theorem skipSubtree_mem (root : PR K D) (l : List (PR K D)) :
+    ∀ r ∈ skipSubtree root l, r ∈ l := by
+  induction l with
+  | nil => intro r hr; simp [skipSubtree] at hr
+  | cons v rest ih =>
+    intro r hr
+    unfold skipSubtree at hr
+    by_cases h : root.supersetOf v = true
+    · rw [if_pos h] at hr
+      exact List.mem_cons_of_mem _ (ih r hr)
+    · rw [if_neg h] at hr
+      exact hr
+
+theorem skipSubtree_length (root : PR K D) (l : List (PR K D)) :
+    (skipSubtree root l).length ≤ l.length := by
+  induction l with
+  | nil => simp [skipSubtree]
+  | cons v rest ih =>
+    unfold skipSubtree
+    by_cases h : root.supersetOf v = true
+    · rw [if_pos h]; simp only [List.length_cons]; omega
+    · rw [if_neg h]
+
+theorem BOK_inconsistent (P : K → Prop) (b : Builder K) (s e : K) (hb : BOK P b)
+    (hse : s ≤ e) (hs : P s) (he : P e) :
+    ∃ b', b.inconsistent s e = .ok b' ∧ BOK P b' := by
+  refine ⟨{ b with bad := b.bad ++ [(s, e)] }, by simp [Builder.inconsistent, hse], ?_⟩
+  intro r hr
+  simp only [List.mem_append, List.mem_cons, List.not_mem_nil, or_false] at hr
+  rcases hr with (hr | rfl) | hr
+  · exact hb r (List.mem_append_left _ hr)
+  · exact ⟨hse, hs, he⟩
+  · exact hb r (List.mem_append_right _ hr)
+
+theorem BOK_consistent (P : K → Prop) (b : Builder K) (s e : K) (hb : BOK P b)
+    (hse : s ≤ e) (hs : P s) (he : P e) :
+    ∃ b', b.consistent s e = .ok b' ∧ BOK P b' := by
+  refine ⟨{ b with good := b.good ++ [(s, e)] }, by simp [Builder.consistent, hse], ?_⟩
+  intro r hr
+  simp only [List.mem_append, List.mem_cons, List.not_mem_nil, or_false] at hr
+  rcases hr with hr | hr | rfl
+  · exact hb r (List.mem_append_left _ hr)
+  · exact hb r (List.mem_append_right _ hr)
+  · exact ⟨hse, hs, he⟩
+
+theorem drainSubtree_spec (P : K → Prop) (root : PR K D) (peer : List (PR K D)) :
+    ∀ (b : Builder K), (∀ r ∈ peer, PRG P r) → BOK P b →
+    ∃ peer' b', drainSubtree root peer b = .ok (peer', b') ∧ peer'.length ≤ peer.length ∧
+      (∀ r ∈ peer', PRG P r) ∧ BOK P b' ∧
+      (∀ v rest, peer' = v :: rest → root.supersetOf v = false) := by
+  induction peer with
+  | nil =>
+    intro b _ hb
+    exact ⟨[], b, rfl, le_refl _, by simp, hb, by simp⟩
+  | cons v rest ih =>
+    intro b hp hb
+    unfold drainSubtree
+    by_cases h : root.supersetOf v = true
+    · rw [if_pos h]
+      have hv := hp v (by simp)
+      obtain ⟨b1, hb1, hbok1⟩ := BOK_inconsistent P b v.start v.end_ hb hv.1 hv.2.1 hv.2.2
+      obtain ⟨peer', b', he, hlen, hpg, hbok, hhd⟩ :=
+        ih b1 (fun r hr => hp r (by simp [hr])) hbok1
+      refine ⟨peer', b', ?_, ?_, hpg, hbok, hhd⟩
+      · simp only [hb1, he]
+      · simp only [List.length_cons]; omega
+    · rw [if_neg h]
+      refine ⟨v :: rest, b, rfl, le_refl _, hp, hb, ?_⟩
+      intro v' rest' heq
+      cases heq
+      simpa using h
+
+/-- `local_is_superset` (diff.rs:220). -/
+def locSup (p : PR K D) : List (PR K D) → Bool
+  | lh :: _ => lh.supersetOf p
+  | [] => false
+
+/-- Start of the gap interval (diff.rs:237). -/
+def walkStart (root : PR K D) : Option (PR K D) → K
+  | .some v => v.end_
+  | .none => root.start
+
+/-- End of the gap interval (diff.rs:241). -/
+def walkEnd (p : PR K D) : List (PR K D) → K
+  | lh :: _ => if p.end_ < lh.start then p.end_ else lh.start
+  | [] => p.end_
+
+/-- Unfolding of one `recurseDiff` step, uniformly in `lastP`. -/
+theorem recurseDiff_succ (fuel : Nat) (root : PR K D) (lastP : Option (PR K D))
+    (peer loc : List (PR K D)) (b : Builder K) :
+    recurseDiff (fuel + 1) root lastP peer loc b =
+    match advWithin root peer with
+    | (.none, peer) => .ok (peer, loc, b)
+    | (.some p, peer1) =>
+      match advWithin p loc with
+      | (.none, loc) =>
+        if locSup p loc then .ok (peer1, loc, b)
+        else
+          if walkStart root lastP ≤ walkEnd p loc then
+            match b.inconsistent (walkStart root lastP) (walkEnd p loc) with
+            | .error e => .error e
+            | .ok b' => .ok (peer1, loc, b')
+          else .ok (peer1, loc, b)
+      | (.some l0, loc1) =>
+        if !root.supersetOf p then .error "diff.rs:272" else
+        let (l, loc2) := shrinkLocal p l0 loc1
+        match (if l.hash = p.hash then
+                 match b.consistent p.start p.end_ with
+                 | .error e => Except.error e
+                 | .ok b1 => .ok (b1, skipSubtree p peer1)
+               else
+                 match b.inconsistent p.start p.end_ with
+                 | .error e => .error e
+                 | .ok b1 => .ok (b1, peer1)) with
+        | .error e => .error e
+        | .ok (b1, peer2) =>
+          match recurseSubtree fuel p peer2 loc2 b1 with
+          | .error e => .error e
+          | .ok (peer3, loc3, b2) => recurseDiff fuel root (.some p) peer3 loc3 b2 := by
+  cases lastP <;> (rw [recurseDiff]; simp only [locSup, walkStart, walkEnd]; rfl)
+
+/-- Joint fuel-sufficiency / panic-freedom statement for the two mutually recursive walkers. -/
+theorem walk_spec (P : K → Prop) : ∀ fuel : Nat,
+    (∀ (root : PR K D) (lastP : Option (PR K D)) (peer loc : List (PR K D)) (b : Builder K),
+      2 * peer.length + 1 ≤ fuel → PRG P root → (∀ v, lastP = some v → PRG P v) →
+      (∀ r ∈ peer, PRG P r) → (∀ r ∈ loc, PRG P r) → BOK P b →
+      ∃ peer' loc' b', recurseDiff fuel root lastP peer loc b = .ok (peer', loc', b') ∧
+        peer'.length ≤ peer.length ∧ (∀ r ∈ peer', PRG P r) ∧ (∀ r ∈ loc', PRG P r) ∧ BOK P b') ∧
+    (∀ (root : PR K D) (peer loc : List (PR K D)) (b : Builder K),
+      2 * peer.length + 2 ≤ fuel → PRG P root →
+      (∀ r ∈ peer, PRG P r) → (∀ r ∈ loc, PRG P r) → BOK P b →
+      ∃ peer' loc' b', recurseSubtree fuel root peer loc b = .ok (peer', loc', b') ∧
+        peer'.length ≤ peer.length ∧ (∀ r ∈ peer', PRG P r) ∧ (∀ r ∈ loc', PRG P r) ∧ BOK P b') := by
+  intro fuel
+  induction fuel with
+  | zero =>
+    constructor
+    · intro root lastP peer loc b hf; omega
+    · intro root peer loc b hf; omega
+  | succ fuel ih =>
+    obtain ⟨ihD, ihS⟩ := ih
+    constructor
+    · intro root lastP peer loc b hf hroot hlast hpeer hloc hb
+      rw [recurseDiff_succ]
+      rcases advWithin_cases root peer with h | ⟨p, peer1, rfl, hsup, h⟩
+      · rw [h]
+        exact ⟨peer, loc, b, rfl, le_refl _, hpeer, hloc, hb⟩
+      · rw [h]
+        have hp : PRG P p := hpeer p (by simp)
+        have hpeer1 : ∀ r ∈ peer1, PRG P r := fun r hr => hpeer r (by simp [hr])
+        simp only [List.length_cons] at hf ⊢
+        rcases advWithin_cases p loc with h2 | ⟨l0, loc1, rfl, hsup2, h2⟩
+        · rw [h2]
+          dsimp only
+          by_cases hls : locSup p loc = true
+          · rw [if_pos hls]
+            exact ⟨peer1, loc, b, rfl, by omega, hpeer1, hloc, hb⟩
+          · rw [if_neg hls]
+            by_cases hse : walkStart root lastP ≤ walkEnd p loc
+            · rw [if_pos hse]
+              have hPs : P (walkStart root lastP) := by
+                cases lastP with
+                | none => exact hroot.2.1
+                | some v => exact (hlast v rfl).2.2
+              have hPe : P (walkEnd p loc) := by
+                cases loc with
+                | nil => exact hp.2.2
+                | cons lh rest =>
+                  simp only [walkEnd]
+                  by_cases hlt : p.end_ < lh.start
+                  · rw [if_pos hlt]; exact hp.2.2
+                  · rw [if_neg hlt]; exact (hloc lh (by simp)).2.1
+              obtain ⟨b', hb', hbok'⟩ := BOK_inconsistent P b _ _ hb hse hPs hPe
+              rw [hb']
+              exact ⟨peer1, loc, b', rfl, by omega, hpeer1, hloc, hbok'⟩
+            · rw [if_neg hse]
+              exact ⟨peer1, loc, b, rfl, by omega, hpeer1, hloc, hb⟩
+        · rw [h2]
+          dsimp only
+          rw [hsup]
+          simp only [Bool.not_true, Bool.false_eq_true, if_false]
+          rcases hsl : shrinkLocal p l0 loc1 with ⟨l, loc2⟩
+          dsimp only
+          have hloc2 : ∀ r ∈ loc2, PRG P r := by
+            intro r hr
+            have := shrinkLocal_mem p loc1 l0 r (by rw [hsl]; exact hr)
+            exact hloc r (by simp [this])
+          have tail : ∀ (b1 : Builder K) (peer2 : List (PR K D)), BOK P b1 →
+              peer2.length ≤ peer1.length → (∀ r ∈ peer2, PRG P r) →
+              ∃ peer' loc' b',
+                (match recurseSubtree fuel p peer2 loc2 b1 with
+                  | .error e => Except.error e
+                  | .ok (peer3, loc3, b2) => recurseDiff fuel root (some p) peer3 loc3 b2) =
+                  .ok (peer', loc', b') ∧
+                peer'.length ≤ peer1.length + 1 ∧ (∀ r ∈ peer', PRG P r) ∧
+                (∀ r ∈ loc', PRG P r) ∧ BOK P b' := by
+            intro b1 peer2 hb1 hlen2 hpeer2
+            obtain ⟨peer3, loc3, b2, hS, hlen3, hpeer3, hloc3, hb2⟩ :=
+              ihS p peer2 loc2 b1 (by omega) hp hpeer2 hloc2 hb1
+            rw [hS]
+            dsimp only
+            obtain ⟨peer4, loc4, b4, hD, hlen4, hpeer4, hloc4, hb4⟩ :=
+              ihD root (some p) peer3 loc3 b2 (by omega) hroot
+                (fun v hv => by cases hv; exact hp) hpeer3 hloc3 hb2
+            exact ⟨peer4, loc4, b4, hD, by omega, hpeer4, hloc4, hb4⟩
+          by_cases hh : l.hash = p.hash
+          · rw [if_pos hh]
+            obtain ⟨b1, hb1, hbok1⟩ := BOK_consistent P b p.start p.end_ hb hp.1 hp.2.1 hp.2.2
+            rw [hb1]
+            dsimp only
+            exact tail b1 (skipSubtree p peer1) hbok1 (skipSubtree_length p peer1)
+              (fun r hr => hpeer1 r (skipSubtree_mem p peer1 r hr))
+          · rw [if_neg hh]
+            obtain ⟨b1, hb1, hbok1⟩ := BOK_inconsistent P b p.start p.end_ hb hp.1 hp.2.1 hp.2.2
+            rw [hb1]
+            dsimp only
+            exact tail b1 peer1 hbok1 (le_refl _) hpeer1
+    · intro root peer loc b hf hroot hpeer hloc hb
+      rw [recurseSubtree]
+      obtain ⟨peer1, loc1, b1, hD, hlen1, hpeer1, hloc1, hb1⟩ :=
+        ihD root none peer loc b (by omega) hroot (fun v hv => by cases hv) hpeer hloc hb
+      rw [hD]
+      dsimp only
+      obtain ⟨peer2, b2, hdr, hlen2, hpeer2, hb2, hhd⟩ := drainSubtree_spec P root peer1 b1 hpeer1 hb1
+      rw [hdr]
+      dsimp only
+      cases peer2 with
+      | nil => exact ⟨[], loc1, b2, rfl, by simp, hpeer2, hloc1, hb2⟩
+      | cons v rest =>
+        dsimp only
+        rw [hhd v rest rfl]
+        exact ⟨v :: rest, loc1, b2, rfl, by omega, hpeer2, hloc1, hb2⟩
+
+theorem isBound_prBounds {r : PR K D} {l : List (PR K D)} (h : r ∈ l) :
+    IsBound r.start (prBounds l) ∧ IsBound r.end_ (prBounds l) := by
+  have hm : (r.start, r.end_) ∈ prBounds l := List.mem_map.2 ⟨r, h, rfl⟩
+  exact ⟨⟨_, hm, Or.inl rfl⟩, ⟨_, hm, Or.inr rfl⟩⟩
 
 /-- The walk itself: with `2·|peer| + 2` fuel it never runs out and never trips an assertion;
 everything it records is a valid interval whose bounds occurred in the input. -/
@@ -52,20 +662,72 @@ theorem recurseDiff_total (loc peer : List (PR K D)) (root : PR K D)
     ∃ peer' loc' b, recurseDiff (2 * peer.length + 2) root none peer loc Builder.empty = .ok (peer', loc', b) ∧
       DRValid b.bad ∧ DRValid b.good ∧
       (∀ r ∈ b.bad ++ b.good, IsBound r.1 (prBounds (root :: loc ++ peer)) ∧ IsBound r.2 (prBounds (root :: loc ++ peer))) := by
-  sorry
+  have hG : ∀ r ∈ root :: loc ++ peer, r.start ≤ r.end_ →
+      PRG (fun x => IsBound x (prBounds (root :: loc ++ peer))) r :=
+    fun r hr hv => ⟨hv, (isBound_prBounds hr).1, (isBound_prBounds hr).2⟩
+  obtain ⟨peer', loc', b, he, -, -, -, hb⟩ :=
+    (walk_spec (D := D) (fun x => IsBound x (prBounds (root :: loc ++ peer)))
+      (2 * peer.length + 2)).1 root none peer loc Builder.empty (by omega)
+      (hG root (by simp) hr) (fun v hv => by cases hv)
+      (fun r hr => hG r (by simp [hr]) (hp r hr))
+      (fun r hr => hG r (by simp [hr]) (hl r hr))
+      (by intro r hr; simp [Builder.empty] at hr)
+  refine ⟨peer', loc', b, he, ?_, ?_, ?_⟩
+  · exact fun r hr => (hb r (List.mem_append_left _ hr)).1
+  · exact fun r hr => (hb r (List.mem_append_right _ hr)).1
+  · exact fun r hr => (hb r hr).2
 
 /-- C13 / C12 (list part): `diff` is total on untrusted input. -/
 theorem diff_total (loc peer : List (PR K D)) (hl : PRValid loc) (hp : PRValid peer) :
     ∃ out, diff loc peer = .ok out ∧ DRChain out ∧ DRValid out ∧
       (∀ r ∈ out, IsBound r.1 (prBounds (loc ++ peer)) ∧ IsBound r.2 (prBounds (loc ++ peer))) := by
-  sorry
+  cases peer with
+  | nil =>
+    exact ⟨[], rfl, by simp [DRChain], by simp [DRValid], by simp⟩
+  | cons root rest =>
+    obtain ⟨peer', loc', b, he, hbv, hgv, hbb⟩ :=
+      recurseDiff_total loc (root :: rest) root hl hp (hp root (by simp))
+    obtain ⟨bad, hbad, hbc, hbvv, -, hbbound⟩ := intoVec_spec b.bad hbv
+    obtain ⟨good, hgood, hgc, hgvv, -, hgbound⟩ := intoVec_spec b.good hgv
+    obtain ⟨out, hout, hoc, hov, -, -, hob⟩ := reduceSyncRange_spec bad good hbc hbvv hgc hgvv
+    refine ⟨out, ?_, hoc, hov, ?_⟩
+    · unfold diff
+      simp only [he, Builder.intoDiffVec, hbad, hgood, hout]
+    · have h1 : BoundsIn out (bad ++ good) := hob
+      have h2 : BoundsIn (bad ++ good) (b.bad ++ b.good) :=
+        boundsIn_append
+          (boundsIn_trans hbbound (boundsIn_of_subset (fun r hr => List.mem_append_left _ hr)))
+          (boundsIn_trans hgbound (boundsIn_of_subset (fun r hr => List.mem_append_right _ hr)))
+      have h3 : BoundsIn (b.bad ++ b.good) (prBounds (root :: loc ++ root :: rest)) := hbb
+      have h4 : BoundsIn (prBounds (root :: loc ++ root :: rest)) (prBounds (loc ++ root :: rest)) := by
+        refine boundsIn_of_subset ?_
+        intro r hr
+        simp only [prBounds, List.mem_map] at hr ⊢
+        obtain ⟨a, ha, rfl⟩ := hr
+        refine ⟨a, ?_, rfl⟩
+        simp only [List.cons_append, List.mem_cons, List.mem_append] at ha ⊢
+        rcases ha with rfl | h | h
+        · exact Or.inr (Or.inl rfl)
+        · exact Or.inl h
+        · exact Or.inr h
+      exact boundsIn_trans h1 (boundsIn_trans h2 (boundsIn_trans h3 h4))
 
 /-- A diff against an empty peer is empty (C08, second sentence). -/
 theorem diff_empty_peer (loc : List (PR K D)) : diff loc ([] : List (PR K D)) = .ok [] := by
-  sorry
+  rfl
 
 /-- `PageRange::new` rejects exactly the inverted bounds. -/
 theorem PR_new_ok_iff (s e : K) (h : D) : (∃ r, PR.new s e h = .ok r) ↔ s ≤ e := by
-  sorry
+  unfold PR.new
+  by_cases hse : s ≤ e
+  · simp [hse]
+  · simp [hse]
 
 end Mst
+
+#print axioms Mst.diff_total
+#print axioms Mst.intoVec_spec
+#print axioms Mst.reduceSyncRange_spec
+#print axioms Mst.recurseDiff_total
+#print axioms Mst.diff_empty_peer
+#print axioms Mst.PR_new_ok_iff
